@@ -35,6 +35,7 @@ fn run_child(harness: &str, cfg: Value) {
         "c05_drop" => Box::new(move || harness::queue::c05_drop(&cfg)),
         "c05_busy_producer" => Box::new(move || harness::queue::c05_busy_producer(&cfg)),
         "c05_forget" => Box::new(move || harness::queue::c05_forget(&cfg)),
+        "c09_last_handle_in_flush" => Box::new(move || harness::queue::c09_last_handle_in_flush(&cfg)),
         "c09" => Box::new(move || harness::queue::c09(&cfg)),
         "c06" => Box::new(move || harness::uow::c06(&cfg)),
         "c10" => Box::new(move || harness::agg::c10(&cfg)),
